@@ -25,9 +25,11 @@ def mk(eqm, hm):
     return h, e
 
 
-def run(chk, tier, seed):
+def run(chk, tier, seed, name="c17"):
     n = 2000 if tier == "quick" else 8000
-    r = vf.tlc("XrMap", "XrMap.cfg", "c17", simulate=n, depth=16, seed=seed, timeout=3000)
+    if tier == "dev":
+        n = 600
+    r = vf.tlc("XrMap", "XrMap.cfg", name, simulate=n, depth=16, seed=seed, timeout=3000)
     cases = r.cases()
     if not cases or "Error:" in r.out:
         raise vf.ToolError("XrMap failed:\n" + r.out[-2500:])
@@ -45,8 +47,8 @@ def run(chk, tier, seed):
             else:
                 lines.append("let %s = %s;" % (b["n"], coregen.rexpr(t)))
         jobs.append({"id": "m%d" % i, "src": "\n".join(lines) + "\n", "observe": [b["n"] for b in c["binds"]],
-                     "limits": {"calls": 500000}, "timeout_ms": 30000})
-    res = vf.run_jobs(jobs, "c17")
+                     "limits": {"calls": 500000}, "timeout_ms": 30000, "max_elems": 64})
+    res = vf.run_jobs(jobs, name)
     chk.count(len(jobs))
     tables = []
     for j, c in zip(jobs, cases):
@@ -81,6 +83,16 @@ def run(chk, tier, seed):
                     tables.append({"ev": "Table", "eqm": eqm, "hm": c["hm"], "len": d["len"],
                                    "hs": [int(e["h"]) for e in d["entries"]], "ks": [int(e["k"]["v"]) for e in d["entries"]],
                                    "bn": [x["n"] for x in d["buckets"]], "_job": j["id"], "_bind": b["n"]})
+            elif exp["t"] in ("absbag", "absvals", "abspairs"):
+                # iteration order is unspecified: compared as sorted classes / values / (class, value) pairs
+                if d.get("t") != "seq" or d.get("len") is None:
+                    good = False
+                elif exp["t"] == "absbag":
+                    good = sorted(cls(int(x["v"])) for x in d["v"]) == exp["v"]
+                elif exp["t"] == "absvals":
+                    good = sorted(int(x["v"]) for x in d["v"]) == exp["v"]
+                else:
+                    good = sorted([cls(int(x["v"][0]["v"])), int(x["v"][1]["v"])] for x in d["v"]) == [list(p) for p in exp["v"]]
             else:
                 good = poolcheck.same_val(exp, poolcheck.norm(d))
             if not good:
